@@ -47,7 +47,7 @@ REAL_VS_STUB = {
     'stub_or_simulator_owned': ['all user callbacks', 'which container is mutated how at which callback', 'GC timing'],
 }
 EXPECTED_PROBES = ('mut:delete_front', 'mut:delete_back', 'mut:clear', 'mut:append', 'mut:replace', 're:iter_next',
-                   're:flatten', 're:unflatten', 're:register', 'gc', 'outcome:exception', 'outcome:consistent')
+                   're:flatten', 're:unflatten', 're:register', 're:gc', 'outcome:exception', 'outcome:consistent')
 
 TRAVERSALS = ('flatten', 'flatten_with_path', 'iter', 'flatten_up_to', 'map', 'map_with_path', 'broadcast_prefix',
               'broadcast_common', 'prefix_errors', 'from_collection', 'leaves', 'structure', 'is_prefix_after', 'unflatten',
